@@ -243,6 +243,9 @@ def gen_existing(rng, i):
         doc["ignore"] = ["vendor/", "*.gen.py"]
     if rng.random() < 0.3:
         doc["my_custom_key"] = {"anything": [1, 2, 3], "note": "kept"}
+        if i % 2:
+            # text with the line-break characters YAML knows besides LF (NEL, LS, PS) and a non-ASCII letter: a value like any other
+            doc["my_custom_key"]["note"] = "kept\x85next\u2028line\u2029end \u00e9"
     style = rng.choice(["block", "block", "flow", "comments", "crlf", "no-final-newline", "doc-markers", "banner-lookalike"])
     if i % 7 == 3:
         # the other documented configuration format: an existing .thailint.json, named with --output
@@ -295,7 +298,8 @@ def merge_history(case):
             r = runner.cli(argv, d)
         after = read(path)
         try:
-            loaded = yaml.safe_load(after.decode("utf-8"))
+            # (a file named *.json is read by the tool's JSON parser: judge it by that parser)
+            loaded = json.loads(after.decode("utf-8")) if fname.endswith(".json") else yaml.safe_load(after.decode("utf-8"))
             err = None
         except Exception as e:  # noqa: BLE001
             loaded, err = None, "%s: %s" % (type(e).__name__, str(e)[:150])
